@@ -306,7 +306,7 @@ def corr(case, impl, model):
     keep = lambda l: [x for n, x in enumerate(l) if n < len(okp) and okp[n]]
     if keep(canon_seen(p['seen'])) != keep(canon_seen(mseen)):
         return 'peeks differ: %s / %s' % (p['seen'][:200], mseen[:200])
-    for k in ('double', 'unfin', 'rootkill', 'stale', 'unjoined'):
+    for k in ('double', 'unfin', 'rootkill', 'stale'):
         if int(p['x'].get(k, 0)):
             return 'ledger: %s=%s' % (k, p['x'][k])
     return None
